@@ -4,6 +4,7 @@
   failures in the same places).  Used by Props/C02.lean for the expression-level rule theorems.
 -/
 import Fadl.SemLazy
+import Fadl.Lemmas.Mono
 namespace Fadl
 set_option linter.unusedSimpArgs false
 
@@ -11,21 +12,13 @@ set_option linter.unusedSimpArgs false
 def NoPoison (f : Val → Res) : Prop := ∀ x e, f x ≠ .ok (.poison e)
 
 def selL (f : Val → Res) (vs : List Val) : List Val := vs.map (fun v => lazyElem (force v >>= f))
-def whrL (f : Val → Res) (vs : List Val) : List Val := vs.flatMap (whereElem f)
-def manyL (f : Val → Res) (vs : List Val) : List Val := vs.flatMap (manyElem f)
 
 theorem seqOp2Lz_select (f : Val → Res) (vs : List Val) : seqOp2Lz "Select" f vs = .ok (.list (selL f vs)) := by
   simp [seqOp2Lz, selL]
-theorem seqOp2Lz_where (f : Val → Res) (vs : List Val) : seqOp2Lz "Where" f vs = .ok (.list (whrL f vs)) := by
-  simp [seqOp2Lz, whrL]
-theorem seqOp2Lz_many (f : Val → Res) (vs : List Val) : seqOp2Lz "SelectMany" f vs = .ok (.list (manyL f vs)) := by
-  simp [seqOp2Lz, manyL]
-
-theorem flatMap_congr' {α β : Type} {f g : α → List β} : ∀ {l : List α}, (∀ a ∈ l, f a = g a) → l.flatMap f = l.flatMap g
-  | [], _ => rfl
-  | a :: l, h => by
-    simp only [List.flatMap_cons]
-    rw [h a (by simp), flatMap_congr' (fun b hb => h b (by simp [hb]))]
+theorem seqOp2Lz_where (f : Val → Res) (vs : List Val) : seqOp2Lz "Where" f vs = (whereLz f vs).map .list := by
+  simp [seqOp2Lz]
+theorem seqOp2Lz_many (f : Val → Res) (vs : List Val) : seqOp2Lz "SelectMany" f vs = (manyLz f vs).map .list := by
+  simp [seqOp2Lz]
 
 theorem force_ok_ne_poison {v x : Val} (h : force v = .ok x) : ∀ e, x ≠ .poison e := by
   intro e hx; subst hx
@@ -36,6 +29,9 @@ theorem force_of_ne_poison {x : Val} (h : ∀ e, x ≠ .poison e) : force x = .o
 
 theorem force_ok_idem {v x : Val} (h : force v = .ok x) : force x = .ok x :=
   force_of_ne_poison (force_ok_ne_poison h)
+
+theorem force_ok_eq {v x : Val} (h : force v = .ok x) : v = x := by
+  cases v <;> simp [force] at h <;> exact h
 
 theorem force_lazyElem {r : Res} (h : ∀ e, r ≠ .ok (.poison e)) : force (lazyElem r) = r := by
   cases r with
@@ -69,56 +65,57 @@ theorem first_sel (f : Val → Res) (hf : NoPoison f) (vs : List Val) :
     simp only [seqOp1Lz, selL, List.map, if_true]
     exact force_lazyElem (bind_noPoison hf)
 
-/-- Where ∘ Where: one `Where` with the conjunction (`f(x) and g(x)`) -/
-theorem whr_whr (f g : Val → Res) (vs : List Val) :
-    whrL g (whrL f vs) = whrL (fun x => do let b ← f x; if truthy b then g x else pure b) vs := by
-  simp only [whrL, List.flatMap_assoc]
-  apply flatMap_congr'
-  intro v _
-  simp only [whereElem]
-  cases hv : force v with
-  | error e => simp [List.flatMap, whereElem, force]
-  | ok x =>
-    simp only []
-    cases hfx : f x with
-    | error e => simp [List.flatMap, whereElem, force, bind, Except.bind]
-    | ok b =>
-      by_cases hb : truthy b
-      · simp [hb, List.flatMap, whereElem, force_ok_idem hv, bind, Except.bind]
-      · simp [hb, List.flatMap, bind, Except.bind, pure, Except.pure]
-
 /-- Where ∘ Select = Select ∘ Where(composition) -/
-theorem whr_sel (f g : Val → Res) (hf : NoPoison f) (vs : List Val) :
-    whrL g (selL f vs) = selL f (whrL (fun x => f x >>= g) vs) := by
-  simp only [whrL, selL, List.flatMap_map, List.map_flatMap]
-  apply flatMap_congr'
-  intro v _
-  simp only [whereElem]
-  rw [force_lazyElem (bind_noPoison hf)]
-  cases hv : force v with
-  | error e => simp [bind, Except.bind, lazyElem, force]
-  | ok x =>
-    simp only [bind, Except.bind]
-    cases hfx : f x with
-    | error e => simp [lazyElem, force, bind, Except.bind]
-    | ok y =>
-      simp only []
-      cases hgy : g y with
-      | error e => simp [lazyElem, force, bind, Except.bind]
-      | ok b =>
-        by_cases hb : truthy b
-        · simp [hb, lazyElem, force_ok_idem hv, bind, Except.bind, hfx]
-        · simp [hb]
+theorem whr_sel (f g : Val → Res) (hf : NoPoison f) : ∀ (vs : List Val),
+    whereLz g (selL f vs) = (whereLz (fun x => f x >>= g) vs).map (selL f)
+  | [] => rfl
+  | v :: vs => by
+    have ih := whr_sel f g hf vs
+    simp only [selL, List.map, whereLz]
+    rw [force_lazyElem (bind_noPoison hf)]
+    simp only [selL] at ih
+    rw [ih]
+    generalize whereLz (fun x => f x >>= g) vs = W
+    cases hv : force v with
+    | error e => simp [bind, Except.bind, Except.map]
+    | ok x =>
+      simp only [bind, Except.bind]
+      cases hfx : f x with
+      | error e => simp [Except.map]
+      | ok y =>
+        simp only []
+        cases hgy : g y with
+        | error e => simp [Except.map]
+        | ok b =>
+          simp only []
+          cases W with
+          | error e => simp [Except.map]
+          | ok rest =>
+            by_cases hb : truthy b
+            · simp [hb, Except.map, pure, Except.pure, selL, force_ok_idem hv, hfx, lazyElem, bind, Except.bind]
+            · simp [hb, Except.map, pure, Except.pure]
 
 /-- SelectMany ∘ Select -/
-theorem many_sel (f g : Val → Res) (hf : NoPoison f) (vs : List Val) :
-    manyL g (selL f vs) = manyL (fun x => f x >>= g) vs := by
-  simp only [manyL, selL, List.flatMap_map]
-  apply flatMap_congr'
-  intro v _
-  simp only [manyElem]
-  rw [force_lazyElem (bind_noPoison hf)]
-  cases force v <;> simp [bind, Except.bind]
+theorem many_sel (f g : Val → Res) (hf : NoPoison f) : ∀ (vs : List Val),
+    manyLz g (selL f vs) = manyLz (fun x => f x >>= g) vs
+  | [] => rfl
+  | v :: vs => by
+    simp only [selL, List.map, manyLz] at *
+    rw [force_lazyElem (bind_noPoison hf)]
+    have ih := many_sel f g hf vs
+    simp only [selL] at ih
+    rw [ih]
+    generalize manyLz (fun x => f x >>= g) vs = W
+    cases force v with
+    | error e => simp [bind, Except.bind]
+    | ok x =>
+      simp only [bind, Except.bind]
+      cases f x <;> rfl
+
+theorem asSeq_list' (vs : List Val) : asSeq (.list vs) = .ok vs := rfl
+
+theorem selL_append (g : Val → Res) (a b : List Val) : selL g (a ++ b) = selL g a ++ selL g b := by
+  simp [selL]
 
 /-- the function `x ↦ Op(f(x), g)` applied inside a SelectMany -/
 def innerOp (op : String) (f g : Val → Res) : Val → Res := fun x => do
@@ -127,55 +124,192 @@ def innerOp (op : String) (f g : Val → Res) : Val → Res := fun x => do
   seqOp2Lz op g inner
 
 /-- Select ∘ SelectMany: the Select moves inside -/
-theorem sel_many (f g : Val → Res) (vs : List Val) :
-    selL g (manyL f vs) = manyL (innerOp "Select" f g) vs := by
-  simp only [manyL, selL, List.map_flatMap]
-  apply flatMap_congr'
-  intro v _
-  simp only [manyElem, innerOp]
-  cases hv : force v with
-  | error e => simp [bind, Except.bind, lazyElem, force]
-  | ok x =>
-    simp only [bind, Except.bind]
-    cases hfx : f x with
-    | error e => simp [innerOp, hfx, lazyElem, force, bind, Except.bind]
-    | ok l =>
-      cases l <;> simp [innerOp, hfx, asSeq, lazyElem, force, bind, Except.bind, seqOp2Lz_select, selL]
+theorem sel_many (f g : Val → Res) : ∀ (vs : List Val),
+    (manyLz f vs).map (selL g) = manyLz (innerOp "Select" f g) vs
+  | [] => rfl
+  | v :: vs => by
+    simp only [manyLz]
+    rw [← sel_many f g vs]
+    cases hv : force v with
+    | error e => simp [bind, Except.bind, Except.map]
+    | ok x =>
+      simp only [bind, Except.bind, innerOp]
+      cases hfx : f x with
+      | error e => simp [Except.map]
+      | ok l =>
+        simp only []
+        cases hl : asSeq l with
+        | error e => simp [Except.map]
+        | ok inner =>
+          simp only [seqOp2Lz_select, asSeq_list']
+          cases manyLz f vs with
+          | error e => simp [Except.map]
+          | ok rest => simp [Except.map, pure, Except.pure, selL_append]
 
-/-- Where ∘ SelectMany: the Where moves inside -/
-theorem whr_many (f g : Val → Res) (vs : List Val) :
-    whrL g (manyL f vs) = manyL (innerOp "Where" f g) vs := by
-  simp only [manyL, whrL, List.flatMap_assoc]
-  apply flatMap_congr'
-  intro v _
-  simp only [manyElem, innerOp]
-  cases hv : force v with
-  | error e => simp [bind, Except.bind, whereElem, force]
-  | ok x =>
-    simp only [bind, Except.bind]
-    cases hfx : f x with
-    | error e => simp [innerOp, hfx, whereElem, force, bind, Except.bind]
-    | ok l =>
-      cases l <;> simp [innerOp, hfx, asSeq, whereElem, force, bind, Except.bind, seqOp2Lz_where, whrL]
+theorem whereLz_append (g : Val → Res) : ∀ (a b : List Val),
+    whereLz g (a ++ b) = (do let x ← whereLz g a; let y ← whereLz g b; pure (x ++ y))
+  | [], b => by cases h : whereLz g b <;> simp [whereLz, bind, Except.bind, pure, Except.pure, h]
+  | v :: a, b => by
+    simp only [List.cons_append, whereLz, whereLz_append g a b]
+    cases force v with
+    | error e => simp [bind, Except.bind]
+    | ok x =>
+      simp only [bind, Except.bind]
+      cases g x with
+      | error e => rfl
+      | ok bb =>
+        simp only []
+        cases whereLz g a with
+        | error e => rfl
+        | ok ra =>
+          simp only []
+          cases whereLz g b with
+          | error e => rfl
+          | ok rb => by_cases hb : truthy bb <;> simp [hb, pure, Except.pure]
+
+theorem manyLz_append (g : Val → Res) : ∀ (a b : List Val),
+    manyLz g (a ++ b) = (do let x ← manyLz g a; let y ← manyLz g b; pure (x ++ y))
+  | [], b => by cases h : manyLz g b <;> simp [manyLz, bind, Except.bind, pure, Except.pure, h]
+  | v :: a, b => by
+    simp only [List.cons_append, manyLz, manyLz_append g a b]
+    cases force v with
+    | error e => simp [bind, Except.bind]
+    | ok x =>
+      simp only [bind, Except.bind]
+      cases g x with
+      | error e => rfl
+      | ok r =>
+        simp only []
+        cases asSeq r with
+        | error e => rfl
+        | ok inner =>
+          simp only []
+          cases manyLz g a with
+          | error e => rfl
+          | ok ra =>
+            simp only []
+            cases manyLz g b with
+            | error e => rfl
+            | ok rb => simp [pure, Except.pure, List.append_assoc]
+
+/-- Where ∘ SelectMany: the Where moves inside (whenever the original succeeds, with the same elements) -/
+theorem whr_many (f g : Val → Res) : ∀ (vs : List Val),
+    ELe (manyLz f vs >>= whereLz g) (manyLz (innerOp "Where" f g) vs)
+  | [] => by intro v h; simpa [manyLz, whereLz, bind, Except.bind] using h
+  | v :: vs => by
+    intro out h
+    simp only [manyLz, bind, Except.bind] at h ⊢
+    cases hv : force v with
+    | error e => simp [hv] at h
+    | ok x =>
+      simp only [hv] at h ⊢
+      cases hfx : f x with
+      | error e => simp [hfx] at h
+      | ok l =>
+        simp only [hfx] at h
+        cases hl : asSeq l with
+        | error e => simp [hl] at h
+        | ok inner =>
+          simp only [hl] at h
+          cases hrest : manyLz f vs with
+          | error e => simp [hrest] at h
+          | ok rest =>
+            simp only [hrest, pure, Except.pure] at h
+            rw [whereLz_append] at h
+            simp only [bind, Except.bind] at h
+            cases hwi : whereLz g inner with
+            | error e => simp [hwi] at h
+            | ok wi =>
+              simp only [hwi] at h
+              cases hwr : whereLz g rest with
+              | error e => simp [hwr] at h
+              | ok wr =>
+                simp only [hwr, pure, Except.pure, Except.ok.injEq] at h
+                have ih := whr_many f g vs wr (by simp [hrest, hwr, bind, Except.bind])
+                simp only [innerOp, hfx, hl, bind, Except.bind, seqOp2Lz_where, hwi, Except.map, asSeq_list', ih, pure, Except.pure]
+                rw [h]
 
 /-- SelectMany ∘ SelectMany: the second one moves inside -/
-theorem many_many (f g : Val → Res) (vs : List Val) :
-    manyL g (manyL f vs) = manyL (innerOp "SelectMany" f g) vs := by
-  simp only [manyL, List.flatMap_assoc]
-  apply flatMap_congr'
-  intro v _
-  simp only [manyElem, innerOp]
-  cases hv : force v with
-  | error e => simp [bind, Except.bind, manyElem, force]
-  | ok x =>
-    simp only [bind, Except.bind]
-    cases hfx : f x with
-    | error e => simp [innerOp, hfx, manyElem, force, bind, Except.bind]
-    | ok l =>
-      cases l <;> simp [innerOp, hfx, asSeq, manyElem, force, bind, Except.bind, seqOp2Lz_many, manyL]
+theorem many_many (f g : Val → Res) : ∀ (vs : List Val),
+    ELe (manyLz f vs >>= manyLz g) (manyLz (innerOp "SelectMany" f g) vs)
+  | [] => by intro v h; simpa [manyLz, bind, Except.bind] using h
+  | v :: vs => by
+    intro out h
+    simp only [manyLz, bind, Except.bind] at h ⊢
+    cases hv : force v with
+    | error e => simp [hv] at h
+    | ok x =>
+      simp only [hv] at h ⊢
+      cases hfx : f x with
+      | error e => simp [hfx] at h
+      | ok l =>
+        simp only [hfx] at h
+        cases hl : asSeq l with
+        | error e => simp [hl] at h
+        | ok inner =>
+          simp only [hl] at h
+          cases hrest : manyLz f vs with
+          | error e => simp [hrest] at h
+          | ok rest =>
+            simp only [hrest, pure, Except.pure] at h
+            rw [manyLz_append] at h
+            simp only [bind, Except.bind] at h
+            cases hwi : manyLz g inner with
+            | error e => simp [hwi] at h
+            | ok wi =>
+              simp only [hwi] at h
+              cases hwr : manyLz g rest with
+              | error e => simp [hwr] at h
+              | ok wr =>
+                simp only [hwr, pure, Except.pure, Except.ok.injEq] at h
+                have ih := many_many f g vs wr (by simp [hrest, hwr, bind, Except.bind])
+                simp only [innerOp, hfx, hl, bind, Except.bind, seqOp2Lz_many, hwi, Except.map, asSeq_list', ih, pure, Except.pure]
+                rw [h]
 
-/-- Select with the identity is the sequence itself, provided no element is a deferred failure of a kind that
-    forcing would change - it never is: `lazyElem (force v) = v` -/
+/-- `f(x) and g(x)` -/
+def andF (f g : Val → Res) : Val → Res := fun x => do
+  let b ← f x
+  if truthy b then g x else .ok b
+
+/-- Where ∘ Where: one `Where` with the conjunction (`f(x) and g(x)`) -/
+theorem whr_whr (f g : Val → Res) : ∀ (vs : List Val),
+    ELe (whereLz f vs >>= whereLz g) (whereLz (andF f g) vs)
+  | [] => by intro v h; simpa [whereLz, bind, Except.bind] using h
+  | v :: vs => by
+    intro out h
+    simp only [whereLz, bind, Except.bind] at h ⊢
+    cases hv : force v with
+    | error e => simp [hv] at h
+    | ok x =>
+      simp only [hv] at h ⊢
+      cases hfx : f x with
+      | error e => simp [hfx] at h
+      | ok b =>
+        simp only [hfx] at h
+        cases hrest : whereLz f vs with
+        | error e => simp [hrest] at h
+        | ok rest =>
+          simp only [hrest, pure, Except.pure] at h
+          by_cases hb : truthy b
+          · simp only [hb, if_true, whereLz, force_ok_idem hv, bind, Except.bind] at h
+            cases hgx : g x with
+            | error e => simp [hgx] at h
+            | ok b2 =>
+              simp only [hgx] at h
+              cases hwr : whereLz g rest with
+              | error e => simp [hwr] at h
+              | ok wr =>
+                simp only [hwr, pure, Except.pure, Except.ok.injEq] at h
+                have ih := whr_whr f g vs wr (by simp [hrest, hwr, bind, Except.bind])
+                have hA : andF f g x = .ok b2 := by simp [andF, hfx, hb, hgx, bind, Except.bind]
+                simp only [hA, ih, pure, Except.pure]
+                rw [h]
+          · simp only [hb, if_false] at h
+            have ih := whr_whr f g vs out (by simpa [hrest, bind, Except.bind] using h)
+            have hA : andF f g x = .ok b := by simp [andF, hfx, hb, bind, Except.bind]
+            simp [hA, ih, hb, pure, Except.pure]
+
+/-- Select with the identity is the sequence itself -/
 theorem sel_id (vs : List Val) : selL (fun x => .ok x) vs = vs := by
   simp only [selL]
   conv => rhs; rw [← List.map_id vs]
@@ -183,13 +317,22 @@ theorem sel_id (vs : List Val) : selL (fun x => .ok x) vs = vs := by
   intro v _
   cases v <;> simp [force, lazyElem, bind, Except.bind]
 
-/-- Where with the constant True keeps every element -/
-theorem whr_true (vs : List Val) : whrL (fun _ => .ok (.bool true)) vs = vs := by
-  induction vs with
-  | nil => rfl
-  | cons v vs ih =>
-    simp only [whrL, List.flatMap_cons] at *
-    rw [ih]
-    cases v <;> simp [whereElem, force, truthy]
+/-- Where with the constant True keeps every element (having demanded each) -/
+theorem whr_true : ∀ (vs : List Val), ELe (whereLz (fun _ => .ok (.bool true)) vs) (.ok vs)
+  | [] => by intro v h; simpa [whereLz] using h
+  | v :: vs => by
+    intro out h
+    simp only [whereLz, bind, Except.bind] at h
+    cases hv : force v with
+    | error e => simp [hv] at h
+    | ok x =>
+      simp only [hv] at h
+      cases hr : whereLz (fun _ => .ok (.bool true)) vs with
+      | error e => simp [hr] at h
+      | ok rest =>
+        simp only [hr, truthy, if_true, pure, Except.pure, Except.ok.injEq] at h
+        have ih := whr_true vs rest hr
+        simp only [Except.ok.injEq] at ih
+        rw [← h, force_ok_eq hv, ih]
 
 end Fadl
